@@ -68,6 +68,8 @@ class Element(abc.MutableSequence):
         self.raw = raw
         # False for a parsed element whose end tag is missing in the source
         self.closed = True
+        # the source text of the end tag of a parsed element (``</DIV >``)
+        self.raw_end: str | None = None
         self.attrs: Attribute = Attribute(attr or {})
         self._parent: Element | None = None
         self._children: list[Element] = []
@@ -125,6 +127,7 @@ class Element(abc.MutableSequence):
         """Recursively copy and remove parent."""
         _copy = self.__class__(self.name, self.attrs, self.raw)
         _copy.closed = self.closed
+        _copy.raw_end = self.raw_end
         for child in self:
             _copy_child = child.deepcopy()
             _copy.append(_copy_child)
@@ -244,7 +247,7 @@ class Tag(Element):
             + "".join(
                 child.render(tag_overrides=tag_overrides, **kwargs) for child in self
             )
-            + ("" if skip_end_tag else f"</{self.name}>")
+            + ("" if skip_end_tag else self.raw_end or f"</{self.name}>")
         )
 
 
@@ -376,7 +379,7 @@ class Tree:
         item = klass(data)
         top.append(item)
 
-    def enclose(self, name: str) -> bool:
+    def enclose(self, name: str, raw: str | None = None) -> bool:
         """When a closing tag is found, pop the pointer's scope from the stack,
         to then point to the earlier scope's tag.
 
@@ -388,6 +391,7 @@ class Tree:
             # (the root can be given a name, but is not an open element)
             if ind.name == name and ind is not self.outmost:
                 ind.closed = True
+                ind.raw_end = raw
                 break
         else:
             count = 0
@@ -467,10 +471,12 @@ class HtmlToAst(HTMLParser):
 
     def handle_endtag(self, name: str):
         """When found a closing tag then makes it point to the right scope."""
-        if name in self.void_elements or not self.struct.enclose(name):
+        # the source text is kept (case of the name, white space before the ``>``)
+        raw = self.rawdata[self._offset : self.rawdata.find(">", self._offset) + 1]
+        if name in self.void_elements or not self.struct.enclose(name, raw):
             # an end tag without an open element (void elements are never open):
             # keep it, rather than drop it
-            self.struct.nest_terminal(Data, f"</{name}>")
+            self.struct.nest_terminal(Data, raw)
 
     def handle_data(self, data: str):
         """Nest data onto the tree."""
